@@ -135,5 +135,69 @@ pub fn run(sc: &Value) -> Value {
     if out.len() >= 64 && out.last().map(|x| x.0 == "data").unwrap_or(false) && pos < b {
         // (64 reads of up to 64 KiB cover 4 MiB; longer ranges are simply not finished here)
     }
+    if let Some(p) = sc.get("etag_probe") {
+        for w in etag_probe(p["secs"].as_u64().unwrap_or(1_600_000_000), p["nanos"].as_u64().unwrap_or(123_456_100) as u32) {
+            add(w);
+        }
+    }
     json!({"observation": {"steps": log, "len": elen, "etag": etag.map(|t| String::from_utf8_lossy(&t).to_string())}, "violations": violations})
+}
+
+fn etag_at(path: &std::path::Path) -> (Option<Vec<u8>>, Option<std::time::SystemTime>) {
+    let f = std::fs::File::open(path).expect("open");
+    let e: http_serve::ChunkedReadFile<Bytes, BoxError> = http_serve::ChunkedReadFile::new(f, http::HeaderMap::new()).expect("new");
+    (e.etag().map(|v| v.as_bytes().to_vec()), e.last_modified())
+}
+
+/// "identical for every instance opened on an unmodified file and differs once the file's length
+/// or modification time changes": one real file, its mtime set to (secs, nanos) and to neighbours
+/// (lowest nanosecond bit flipped, +1 us, +1 ms, +1 s), then one byte longer with the mtime restored.
+fn etag_probe(secs: u64, nanos: u32) -> Vec<String> {
+    let mut out = Vec::new();
+    let secs = secs.clamp(1, 4_000_000_000);
+    let nanos = nanos % 1_000_000_000;
+    let dir = std::env::temp_dir().join(format!("hs-replay-etag-{}", std::process::id()));
+    let _ = std::fs::create_dir_all(&dir);
+    let path = dir.join("f");
+    std::fs::write(&path, b"0123456789").expect("write");
+    let set = |s: u64, n: u32| {
+        let f = std::fs::OpenOptions::new().write(true).open(&path).expect("reopen");
+        f.set_modified(std::time::UNIX_EPOCH + std::time::Duration::new(s, n)).expect("set mtime");
+    };
+    set(secs, nanos);
+    let (e1, m1) = etag_at(&path);
+    if m1 != Some(std::time::UNIX_EPOCH + std::time::Duration::new(secs, nanos)) {
+        // the file system does not keep nanoseconds: the probe cannot say anything
+        let _ = std::fs::remove_dir_all(&dir);
+        return out;
+    }
+    let (e1b, _) = etag_at(&path);
+    if e1 != e1b {
+        out.push("two instances opened on the unmodified file have different ETags".into());
+    }
+    let nb: [(u64, u32, &str); 4] = [
+        (secs, nanos ^ 1, "1 ns"),
+        (secs + (nanos as u64 + 1_000) / 1_000_000_000, (nanos + 1_000) % 1_000_000_000, "1 us"),
+        (secs + (nanos as u64 + 1_000_000) / 1_000_000_000, (nanos + 1_000_000) % 1_000_000_000, "1 ms"),
+        (secs + 1, nanos, "1 s"),
+    ];
+    for (s, n, what) in nb {
+        set(s, n);
+        let (e2, _) = etag_at(&path);
+        if e2 == e1 {
+            out.push(format!("modification time changed by {what} (to {s}.{n:09}) but the ETag stayed {:?}", e1.as_ref().map(|t| String::from_utf8_lossy(t).to_string())));
+        }
+    }
+    {
+        use std::io::Write;
+        let mut f = std::fs::OpenOptions::new().append(true).open(&path).expect("append");
+        f.write_all(b"x").expect("append");
+    }
+    set(secs, nanos);
+    let (e3, _) = etag_at(&path);
+    if e3 == e1 {
+        out.push("length changed (same modification time) but the ETag stayed the same".into());
+    }
+    let _ = std::fs::remove_dir_all(&dir);
+    out
 }
